@@ -1,0 +1,12 @@
+//go:build verif
+
+package client
+
+// VerifYield, when set, is called at the named scheduling points (verification harness only).
+var VerifYield func(point string)
+
+func verifYield(point string) {
+	if f := VerifYield; f != nil {
+		f(point)
+	}
+}
